@@ -59,7 +59,7 @@ func vhC05() {
 		d := verifNondetString("data", verifParam("N", 2))
 		m.AppendData(d)
 		ty := ""
-		if verifChoose("hastype", 2) == 1 {
+		if verifParam("NOTYPE", 0) == 0 && verifChoose("hastype", 2) == 1 {
 			t := verifNondetString("type", 1)
 			if tt, err := NewType(t); err == nil {
 				m.Type = tt
@@ -141,6 +141,10 @@ func vhC05() {
 			if cut < len(body) {
 				verifCover("C05/cut-mid-stream")
 			}
+		}
+		if verifParam("SPLIT", 0) == 1 && len(r.data) > 1 {
+			// the transport hands the bytes over in two reads, split at an arbitrary offset
+			r.cutAt = verifChoose("split", len(r.data))
 		}
 		_ = c.read(r, func(time.Duration) {})
 	}
